@@ -228,6 +228,31 @@ def rule_complete(prog):
         for sw in discr_switches(prog, f, RES):
             if "HasValue" in sw.arms and blocks_calling(f, sw.arm_region("HasValue"), [TERM]):
                 fires = True
+        # the sequence buffers are only meaningful while sequence mode is active (they are cleared by the next activation,
+        # not when the mode ends): in Kanata's own methods every lookup lies on the Some edge of get_active()
+        if f.norm.startswith(KAN + "Kanata::"):
+            gas = [(bi, t) for bi, t in f.calls() if callee_name(t) == SS + "::get_active"]
+            for n_, (lb, lt) in enumerate(looks):
+                gated = False
+                for (gb, gt) in gas:
+                    if not f.dominates(gb, lb) or gt["t"] is None:
+                        continue
+                    for sb in sorted(f.reach_from(gt["t"])):
+                        tt = f.term(sb)
+                        if tt["k"] != "switch" or not is_place(tt["d"]) or proj(tt["d"]):
+                            continue
+                        dd = f.single_def(tt["d"]["l"])
+                        if not (dd and dd[2] == "assign" and dd[3]["k"] == "discr" and dd[3]["p"]["l"] == gt["dest"]["l"]):
+                            continue
+                        none_t = [tb for v, tb in tt["ts"] if v == 0] or ([tt["o"]] if any(v == 1 for v, _ in tt["ts"]) else [])
+                        if none_t and lb not in f.reach_from(none_t[0], avoid=[sb]) and f.dominates(sb, lb):
+                            gated = True
+                res.inst("lookup-while-active/%s#%d" % (f.norm.split("::")[-1], n_), ok=gated)
+                res.oblige(gated)
+                if not gated:
+                    res.viol("lookup-while-active/%s" % f.norm.split("::")[-1], "%s:%s" % (f.file, lt.get("ln")),
+                             "the typed-keys buffer is looked up in the sequence trie without sequence mode being active "
+                             "(not on the Some edge of get_active()): a sequence can fire after it timed out or was cancelled")
         res.inst("lookup-place/" + f.norm, lookups=len(looks), has_value_fires=fires)
         res.oblige(fires)
         if not fires:
